@@ -110,6 +110,11 @@ impl BBSplusPoKSignature {
         let D = parse_g1_projective(&bytes[96..144])
             .map_err(|_| Error::InvalidProofOfKnowledgeSignature)?;
 
+        // octets_to_proof: none of the proof points may be the identity
+        if (Abar.is_identity() | Bbar.is_identity() | D.is_identity()).into() {
+            return Err(Error::InvalidProofOfKnowledgeSignature);
+        }
+
         let e_cap = Scalar::from_bytes_be(&bytes[144..176])
             .map_err(|_| Error::InvalidProofOfKnowledgeSignature)?;
         let r1_cap = Scalar::from_bytes_be(&bytes[176..208])
@@ -800,6 +805,15 @@ fn core_proof_verify<CS>(
 where
     CS: BbsCiphersuite,
 {
+    // a proof whose points are the identity proves nothing (Abar = Bbar = Identity_G1 satisfies the
+    // pairing check for every public key); such proofs can reach this point without going through
+    // `from_bytes`, e.g. when deserialized with serde
+    if (proof.Abar.is_identity() | proof.Bbar.is_identity() | proof.D.is_identity()).into() {
+        return Err(Error::PoKSVerificationError(
+            "proof contains the identity point".to_owned(),
+        ));
+    }
+
     let init_res = proof_verify_init::<CS>(
         pk,
         proof,
